@@ -159,7 +159,10 @@ def check_blank(ctx, out):
                 else:
                     out.viol("C03.blank", "C03.blank|%s|replacen|%r" % (b.id, pat), ctx.where(b, t["span"]),
                              "`replacen(%r, %r, %r)` does not blank the delimiter with the same number of spaces exactly once: every tag offset after it no longer maps to its source position" % (pat, rep, cnt))
-            elif callee_matches(t, r"<impl str>::(replace|trim_start_matches|trim_matches|strip_prefix|trim_start|trim)$") and "{closure" in b.id:
+            elif callee_matches(t, r"<impl str>::replace$"):
+                out.viol("C03.blank", "C03.blank|%s|replace-all" % b.id, ctx.where(b, t["span"]),
+                         "comment text is passed through `str::replace`, which rewrites EVERY occurrence of the pattern: besides the comment's own delimiter, the same characters inside the comment - in a tag's attribute values (`name=\"a//b\"`, `line-pattern=\"^https://\"`) - are altered, so attributes are no longer reported as written (only the leading delimiter may be blanked: `replacen(.., 1)`)")
+            elif callee_matches(t, r"<impl str>::(trim_start_matches|trim_matches|strip_prefix|trim_start|trim)$") and "{closure" in b.id:
                 out.viol("C03.blank", "C03.blank|%s|%s" % (b.id, callee_name(t).split("::")[-1]), ctx.where(b, t["span"]),
                          "a comment visitor uses `%s`, which changes the text's length: tag offsets would no longer map to source positions" % callee_name(t).split("::")[-1])
     # (2) the hand-written normalisers: on every path that returns the rewritten text, the pieces pushed
@@ -188,6 +191,73 @@ def check_blank(ctx, out):
         if rep and not bad:
             n += 1
     out.inst("C03.blank", n, 6, note="replacen sites (same-length single replacement) + hand-written normalisers (symbolic length accounting on every returning path)")
+
+
+TEXT_TRANSFORM = r"(<impl str>::(strip_prefix|strip_suffix|trim\w*|replace\w*|to_\w*case|split\w*|get|get_unchecked|lines|chars|char_indices|repeat|escape_\w+|to_lowercase|to_uppercase|nfc|nfd)|ops::Index<.*>>?::index|str::traits::<impl .*Index<.*> for str>::index|String::(from_utf8_lossy|from_utf8|truncate|drain|split_off|replace_range|remove|insert\w*|push\w*|retain)|Cow<.*>::(into_owned|to_mut)|encoding\w*::)$"
+
+
+def check_sametext(ctx, out, rule="C03.sametext"):
+    """One text, one coordinate system: the string handed to the language parser (and, inside it, to
+    tree-sitter) is the file's text exactly as read - not a stripped, trimmed, re-encoded or sliced
+    copy - and it is the same string that is kept as `file_content` and later sliced by the blocks'
+    byte ranges. (A byte order mark removed on one side only shifts every content range by three
+    bytes: wrong content, wrong counts, or a slice inside a character.)"""
+    n = 0
+    from rules.C12 import file_parser
+    # (1) tree-sitter sees the parameter text unchanged
+    for b in ctx.reachable_bodies():
+        if b.promoted is not None:
+            continue
+        for bi, t in b.calls():
+            if callee_matches(t, r"^tree_sitter::Parser::parse$") and len(t["args"]) >= 2:
+                labs = ctx.prov.resolve_upvars(b, ctx.prov.read_operand(b, t["args"][1]))
+                bad = sorted({l[1].split("::")[-1] for l in labs if l[0] == "call" and re.search(TEXT_TRANSFORM, l[1])})
+                if bad:
+                    out.viol(rule, "%s|%s|tree-sitter-input" % (rule, b.id), ctx.where(b, t["span"]),
+                             "the text handed to tree_sitter::Parser::parse has passed through %s: node byte offsets then refer to a different string than the one the comments and the block contents are sliced from" % bad)
+                elif any(l[0] == "param" for l in labs):
+                    n += 1
+    # (2) the file parser: parse(text) and file_content are the text as read
+    fp = file_parser(ctx)
+    if fp is not None:
+        v = ctx.inl(fp, skip=ctx.domain_api, tag="domain", sugar=True)
+        for body in (fp, v):
+            srcs = []
+            for bi, t in body.calls():
+                if callee_matches(t, r"block_parser::BlocksParser::parse$") and len(t["args"]) >= 2:
+                    srcs.append(("the text handed to BlocksParser::parse", t["args"][1], t["span"]))
+            for bi, j, s in body.assigns():
+                rv = s["rv"]
+                if rv["k"] == "agg" and rv.get("agg") == "adt" and (rv.get("path") or "").endswith("blocks::FileBlocks"):
+                    names = rv.get("fields") or []
+                    if "file_content" in names:
+                        srcs.append(("FileBlocks.file_content", rv["ops"][names.index("file_content")], s["span"]))
+            ok_here = 0
+            for what, op, span in srcs:
+                labs = ctx.prov.read_operand(body, op)
+                bad = sorted({l[1].split("::")[-1] for l in labs if l[0] == "call" and re.search(TEXT_TRANSFORM, l[1])})
+                if bad:
+                    out.viol(rule, "%s|%s" % (rule, "parse-input" if "parse" in what else "file-content"), ctx.where(body, span),
+                             "%s has passed through %s: it is no longer the file's text as read, while the other side (the parsed text / the text the blocks' byte ranges are applied to) still is" % (what, bad))
+                elif P.has_call(labs, r"FileSystem::read_to_string$|fs::read_to_string$"):
+                    ok_here += 1
+            if body is fp:
+                n += ok_here
+    # (3) the reader hands on the file's bytes as they are (strict UTF-8), not a repaired copy
+    for b in ctx.reachable_bodies():
+        if b.promoted is None and re.search(r"FileSystemImpl as blockwatch::blocks::FileSystem>::read_to_string$", b.id):
+            labs = ctx.prov.read_local(b, 0, ())
+            for q in (("0",),):
+                labs = labs | ctx.prov.read_local(b, 0, q)
+            bad = sorted({l[1].split("::")[-1] for l in labs if l[0] == "call" and re.search(TEXT_TRANSFORM, l[1])})
+            calls = {callee_name(t).split("::")[-1] for _, t in b.calls()}
+            lossy = sorted(c for c in calls if c in ("from_utf8_lossy", "from_utf8_unchecked", "decode", "decode_without_bom_handling"))
+            if bad or lossy:
+                out.viol(rule, "%s|reader" % rule, ctx.where(b),
+                         "the file reader returns text that passed through %s: what is parsed and reported on is no longer byte for byte the file (a replaced byte changes every column after it on its line)" % (bad or lossy))
+            elif any(callee_matches(t, r"^std::fs::read_to_string$") for _, t in b.calls()):
+                n += 1
+    out.inst(rule, n, 4, note="tree-sitter input = parameter text; parser input and file_content = text as read; reader = fs::read_to_string")
 
 
 def check_content(ctx, out):
@@ -423,6 +493,7 @@ def run(ctx, out, tier):
     check_tagpos(ctx, out, "C03.tagpos")
     shared.sh_traverse(ctx, out)
     shared.sh_units(ctx, out)
+    check_sametext(ctx, out)
     return meta()
 
 
